@@ -24,6 +24,17 @@
 //   tgetall <route> <ext0...>                       DataSet::getData(value)             container starts with extents ext0
 //   tget <route> <ext0...> ; <off...> ; <cnt...>    DataSet::getData(value, count, offset)
 //   tgetat <route> <ext...> ; <off...>              DataSet::getData(value, offset)
+// further public routes:
+//   tcreate <elem> <stored|Nothing> <compr> <route> <ext...> ; <values...>
+//                                                  template Block::createDataArray(name, type, data, data_type, compression)
+//                                                  (starts a case like `create`; on failure the driver looks the array up by name)
+//   has                                            Block::hasDataArray("a"), Block::dataArrayCount()
+//   polyc <none|deflate|auto> <d:..>...            polynomCoefficients(coefficients, compression)
+//   rawwrite <off...> ; <cnt...> ; <values...>     DataArray::setDataDirect
+//   ndidx <dtype> <shape...> ; <values...> ; <index...>          NDArray::get<T>(const NDSize &)   (filled by set<T>(size_t))
+//   ndset <dtype> <shape...> ; <values...> ; <index...> ; <v>    NDArray::set<T>(const NDSize &, v), dump by get<T>(size_t)
+//   applypoly <alias 0|1> <origin> ; <coeffs...> ; <inputs...>   util::applyPolynomial directly (alias: output == input)
+//   str2dt <s:hex>                                 string_to_data_type, printed with data_type_to_string
 // values: Bool 0/1, integers decimal, Float f:<8 hex>, Double d:<16 hex>, String s:<hex>
 #include "common.hpp"
 #include <hdf5.h>
@@ -234,16 +245,20 @@ static std::vector<unsigned long long> to_u64s(const std::vector<std::string> &v
     return o;
 }
 
+static DataType ELEM = DataType::Nothing;      // element type of the container of the current typed call
+
 template<typename T> static std::string show_typed(const T *p, size_t n) {
-    Buf b(S.dt, n);
+    Buf b(ELEM, n);
     for (size_t i = 0; i < n; i++) put<T>(b, i, p[i]);
     return show_all(b);
 }
 
 // what to do with a container once it exists
 struct Call {
-    std::string cmd;          // tsetall tset tgetall tget tgetat
+    std::string cmd;          // tsetall tset tgetall tget tgetat tcreate
     NDSize off, cnt;
+    DataType stored = DataType::Nothing;
+    nix::Compression compr = nix::Compression::Auto;
 };
 
 template<typename C> static void do_call(C &c, const Call &k) {
@@ -252,10 +267,11 @@ template<typename C> static void do_call(C &c, const Call &k) {
     else if (k.cmd == "tgetall") S.arr.getData(c);
     else if (k.cmd == "tget") S.arr.getData(c, k.cnt, k.off);
     else if (k.cmd == "tgetat") S.arr.getData(c, k.off);
+    else if (k.cmd == "tcreate") S.arr = S.block.createDataArray("a", "t", c, k.stored, k.compr);
     else throw std::logic_error("bad typed command");
 }
 
-static bool is_set(const Call &k) { return k.cmd == "tsetall" || k.cmd == "tset"; }
+static bool is_set(const Call &k) { return k.cmd == "tsetall" || k.cmd == "tset" || k.cmd == "tcreate"; }
 
 template<typename T, size_t N> static std::string run_ma(const std::vector<unsigned long long> &ext, const Buf *in, const Call &k) {
     boost::array<typename boost::multi_array<T, N>::index, N> e;
@@ -318,7 +334,7 @@ static std::string run_scalar_string(const Buf *in, const Call &k) {
 template<typename T> static std::string run_nd(const std::vector<unsigned long long> &ext, const Buf *in, const Call &k) {
     NDSize dims(ext.size());
     for (size_t i = 0; i < ext.size(); i++) dims[i] = ext[i];
-    nix::NDArray a(S.dt, dims);
+    nix::NDArray a(ELEM, dims);
     if (in) for (size_t i = 0; i < in->n; i++) a.set<T>(i, get<T>(*in, i));
     do_call(a, k);
     return is_set(k) ? "-" : show_typed<T>(reinterpret_cast<const T *>(a.data()), static_cast<size_t>(a.num_elements()));
@@ -357,26 +373,19 @@ template<typename T> static std::string typed_t(const std::string &route, const 
     throw std::logic_error("bad route " + route);
 }
 
-static std::string typed(const std::vector<std::string> &t) {
-    Call k;
-    k.cmd = t[0];
-    const std::string &route = t[1];
-    auto sec = sections(t, 2);
-    std::vector<unsigned long long> ext = to_u64s(sec[0]);
-    const std::vector<std::string> *vals = nullptr;
-    if (k.cmd == "tsetall") { if (sec.size() != 2) throw std::logic_error("tsetall needs 2 sections"); vals = &sec[1]; }
-    else if (k.cmd == "tset") { if (sec.size() != 3) throw std::logic_error("tset needs 3 sections"); k.off = to_ndsize(sec[1]); vals = &sec[2]; }
-    else if (k.cmd == "tgetall") { if (sec.size() != 1) throw std::logic_error("tgetall needs 1 section"); }
-    else if (k.cmd == "tget") { if (sec.size() != 3) throw std::logic_error("tget needs 3 sections"); k.off = to_ndsize(sec[1]); k.cnt = to_ndsize(sec[2]); }
-    else if (k.cmd == "tgetat") { if (sec.size() != 2) throw std::logic_error("tgetat needs 2 sections"); k.off = to_ndsize(sec[1]); }
+static std::string typed_call(Call &k, DataType elem, const std::string &route, const std::vector<std::string> &extv,
+                              const std::vector<std::string> *vals) {
+    std::vector<unsigned long long> ext = to_u64s(extv);
+    ELEM = elem;
     size_t n = route == "sc" ? 1 : ext_elems(ext);
     std::unique_ptr<Buf> in;
-    if (vals) in.reset(new Buf(parse_buf(S.dt, *vals, n)));
-    if (S.dt == DataType::String) {
-        if (route != "sc") throw std::logic_error("driver: String only through the scalar route (and readvec/writeall for std::vector)");
-        return run_scalar_string(in.get(), k);
+    if (vals) in.reset(new Buf(parse_buf(elem, *vals, n)));
+    if (elem == DataType::String) {
+        if (route == "sc") return run_scalar_string(in.get(), k);
+        if (route == "vec" && k.cmd == "tcreate") { do_call(in->str, k); return "-"; }
+        throw std::logic_error("driver: String only through the scalar route (and std::vector for tcreate / readvec / writeall)");
     }
-    switch (S.dt) {
+    switch (elem) {
     case DataType::Bool: return typed_t<bool>(route, ext, in.get(), k);
     case DataType::Int8: return typed_t<int8_t>(route, ext, in.get(), k);
     case DataType::Int16: return typed_t<int16_t>(route, ext, in.get(), k);
@@ -392,9 +401,132 @@ static std::string typed(const std::vector<std::string> &t) {
     }
 }
 
+static std::string typed(const std::vector<std::string> &t) {
+    Call k;
+    k.cmd = t[0];
+    const std::string &route = t[1];
+    auto sec = sections(t, 2);
+    const std::vector<std::string> *vals = nullptr;
+    if (k.cmd == "tsetall") { if (sec.size() != 2) throw std::logic_error("tsetall needs 2 sections"); vals = &sec[1]; }
+    else if (k.cmd == "tset") { if (sec.size() != 3) throw std::logic_error("tset needs 3 sections"); k.off = to_ndsize(sec[1]); vals = &sec[2]; }
+    else if (k.cmd == "tgetall") { if (sec.size() != 1) throw std::logic_error("tgetall needs 1 section"); }
+    else if (k.cmd == "tget") { if (sec.size() != 3) throw std::logic_error("tget needs 3 sections"); k.off = to_ndsize(sec[1]); k.cnt = to_ndsize(sec[2]); }
+    else if (k.cmd == "tgetat") { if (sec.size() != 2) throw std::logic_error("tgetat needs 2 sections"); k.off = to_ndsize(sec[1]); }
+    return typed_call(k, S.dt, route, sec[0], vals);
+}
+
+static nix::Compression parse_compr_arg(const std::string &s) {
+    if (s == "none") return nix::Compression::None;
+    if (s == "deflate") return nix::Compression::DeflateNormal;
+    if (s == "auto" || s == "fileauto") return nix::Compression::Auto;
+    throw std::logic_error("bad compression " + s);
+}
+
+// tcreate <elem> <stored|Nothing> <compr> <route> <ext...> ; <values...>
+static std::string tcreate(const std::vector<std::string> &t) {
+    if (S.file) { try { S.file.close(); } catch (...) {} }
+    S = Session();
+    DataType elem = parse_dtype(t[1]);
+    S.path = workdir + "/c01.nix";
+    S.fileauto = t[3] == "fileauto";
+    Call k;
+    k.cmd = "tcreate";
+    k.stored = t[2] == "Nothing" ? DataType::Nothing : parse_dtype(t[2]);
+    k.compr = parse_compr_arg(t[3]);
+    S.dt = t[2] == "Nothing" ? elem : k.stored;
+    auto sec = sections(t, 5);
+    if (sec.size() != 2) throw std::logic_error("tcreate needs 2 sections");
+    S.file = nix::File::open(S.path, nix::FileMode::Overwrite, "hdf5",
+                             S.fileauto ? nix::Compression::DeflateNormal : nix::Compression::Auto);
+    S.block = S.file.createBlock("b", "t");
+    try {
+        return typed_call(k, elem, t[4], sec[0], &sec[1]);
+    } catch (...) {
+        // the template lost its handle: whatever it left behind is reachable by name
+        try { S.arr = S.block.getDataArray("a"); } catch (...) {}
+        throw;
+    }
+}
+
+template<typename T> static std::string nd_tool(const std::vector<std::string> &t, DataType dt) {
+    auto sec = sections(t, 2);
+    bool setter = t[0] == "ndset";
+    if (sec.size() != (setter ? 4u : 3u)) throw std::logic_error("ndidx / ndset: wrong number of sections");
+    NDSize dims = to_ndsize(sec[0]);
+    nix::NDArray a(dt, dims);
+    Buf in = parse_buf(dt, sec[1], static_cast<size_t>(a.num_elements()));
+    for (size_t i = 0; i < in.n; i++) a.set<T>(i, get<T>(in, i));
+    NDSize idx = to_ndsize(sec[2]);
+    ELEM = dt;
+    if (!setter) {
+        T v = a.get<T>(idx);
+        Buf b(dt, 1);
+        put<T>(b, 0, v);
+        return show_val(b, 0);
+    }
+    Buf nv = parse_buf(dt, sec[3], 1);
+    a.set<T>(idx, get<T>(nv, 0));
+    Buf out(dt, in.n);
+    for (size_t i = 0; i < in.n; i++) put<T>(out, i, a.get<T>(i));
+    return show_all(out);
+}
+
+static std::string nd_tool_d(const std::vector<std::string> &t) {
+    DataType dt = parse_dtype(t[1]);
+    switch (dt) {
+    case DataType::Bool: return nd_tool<bool>(t, dt);
+    case DataType::Int8: return nd_tool<int8_t>(t, dt);
+    case DataType::Int16: return nd_tool<int16_t>(t, dt);
+    case DataType::Int32: return nd_tool<int32_t>(t, dt);
+    case DataType::Int64: return nd_tool<int64_t>(t, dt);
+    case DataType::UInt8: return nd_tool<uint8_t>(t, dt);
+    case DataType::UInt16: return nd_tool<uint16_t>(t, dt);
+    case DataType::UInt32: return nd_tool<uint32_t>(t, dt);
+    case DataType::UInt64: return nd_tool<uint64_t>(t, dt);
+    case DataType::Float: return nd_tool<float>(t, dt);
+    case DataType::Double: return nd_tool<double>(t, dt);
+    default: throw std::logic_error("bad dtype");
+    }
+}
+
 static std::string handle(const std::vector<std::string> &t) {
     const std::string &cmd = t[0];
     if (cmd == "tsetall" || cmd == "tset" || cmd == "tgetall" || cmd == "tget" || cmd == "tgetat") return typed(t);
+    if (cmd == "tcreate") return tcreate(t);
+    if (cmd == "has") {
+        return std::to_string(S.block.hasDataArray("a") ? 1 : 0) + " " + enc_u64(S.block.dataArrayCount());
+    }
+    if (cmd == "polyc") {
+        std::vector<double> c;
+        for (size_t i = 2; i < t.size(); i++) c.push_back(dec_dbl(t[i]));
+        S.arr.polynomCoefficients(c, parse_compr_arg(t[1]));
+        return "-";
+    }
+    if (cmd == "rawwrite") {
+        auto sec = sections(t, 1);
+        if (sec.size() != 3) throw std::logic_error("rawwrite needs 3 sections");
+        NDSize off = to_ndsize(sec[0]), cnt = to_ndsize(sec[1]);
+        Buf b = parse_buf(S.dt, sec[2], mem_elems(cnt));
+        S.arr.setDataDirect(S.dt, b.ptr(), cnt, off);
+        return "-";
+    }
+    if (cmd == "ndidx" || cmd == "ndset") return nd_tool_d(t);
+    if (cmd == "applypoly") {
+        auto sec = sections(t, 3);
+        if (sec.size() != 3) throw std::logic_error("applypoly needs 3 sections");
+        std::vector<double> cs, in, out;
+        for (auto &x : sec[1]) cs.push_back(dec_dbl(x));
+        for (auto &x : sec[2]) in.push_back(dec_dbl(x));
+        out.assign(in.size() + 1, 0.0);
+        in.push_back(0.0);                        // never a null pointer
+        size_t n = in.size() - 1;
+        if (t[1] == "1") { nix::util::applyPolynomial(cs, dec_dbl(t[2]), in.data(), in.data(), n); out = in; }
+        else nix::util::applyPolynomial(cs, dec_dbl(t[2]), in.data(), out.data(), n);
+        std::string o = "[";
+        for (size_t i = 0; i < n; i++) { o += " "; o += enc_dbl(out[i]); }
+        return o + " ]";
+    }
+    if (cmd == "str2dt") return nix::data_type_to_string(nix::string_to_data_type(dec_str(t[1])));
     if (cmd == "create") {
         if (S.file) { try { S.file.close(); } catch (...) {} }
         S = Session();
